@@ -104,6 +104,27 @@ for route, f in (("ConformerEnsemble(x)", lambda x: ml.ConformerEnsemble(x)), ("
         check(route, src, f(src))
     except BaseException as ex:
         bad.append(f"{route} raised {type(ex).__name__}: {ex}")
+# a Conformer (view of one row) as the source object
+esrc = ml.ConformerEnsemble(e)
+esrc.weights = [0.25, 0.75]
+for route, f in (("pickle Conformer", lambda x: pickle.loads(pickle.dumps(x))), ("deepcopy Conformer", copy.deepcopy)):
+    csrc = esrc[1]
+    try:
+        ccp = f(csrc)
+    except BaseException as ex:
+        bad.append(f"{route} raised {type(ex).__name__}: {str(ex)[:70]}")
+        continue
+    try:
+        if type(ccp) is not type(csrc) or not np.array_equal(ccp.coords, csrc.coords) or not np.array_equal(ccp.atomic_charges, csrc.atomic_charges) \
+                or [int(x.element) for x in ccp.atoms] != [int(x.element) for x in csrc.atoms] or ccp.name != csrc.name:
+            bad.append(f"{route}: the copy differs from the source conformer")
+        keepc = esrc.coords.copy()
+        ccp.coords[0, 0] = 77.0
+        ccp.atoms[0].label = "changed"
+        if not np.array_equal(esrc.coords, keepc) or esrc.atoms[0].label == "changed":
+            bad.append(f"{route}: editing the copy changed the source ensemble")
+    except BaseException as ex:
+        bad.append(f"{route}: using the copy raised {type(ex).__name__}: {str(ex)[:70]}")
 a, b = sample(), sample()
 check("concatenate (first source)", a, ml.Molecule(ml.Structure.concatenate(a, b)) if False else a.__class__(a))
 sa, sb = ml.Structure(a), ml.Structure(b)
